@@ -116,6 +116,38 @@ def job_assign(P, K, D, N):
     P.run("assign", sc_assign, dict(K=K, D=D, N=N), validate=2)
 
 
+def sc_big(B, K, N):
+    """real code only: sizes far beyond the symbolic bound (block-wise code paths, many clusters)"""
+    import numpy as np
+
+    km = B.mod("kmeans")
+    rs = np.random.RandomState(K + N)
+    cents = rs.normal(scale=20.0, size=(K, 2))
+    lab = rs.randint(0, K, size=N)
+    lab[:K] = np.arange(K)  # every cluster non-empty
+    X = cents[lab] + rs.normal(scale=0.01, size=(N, 2))
+    m = km.KMeansMachine(K)
+    m.centroids_ = cents
+    o = Outcome()
+    o.equal("labels", m.predict(X), lab)
+    o.equal("distances-shape", list(np.shape(m.transform(X))), [K, N])
+    v, w = m.get_variances_and_weights_for_each_cluster(X)
+    o.equal("weights", w, np.bincount(lab, minlength=K) / N)
+    wv = np.array([X[lab == k].var(axis=0) for k in range(K)])
+    o.equal("variances", v, wv)
+    g = B.mod("gmm").GMMMachine(K, k_means_trainer=km.KMeansMachine(K, init_method=cents, max_iter=0), max_fitting_steps=0)
+    g.fit(X)
+    o.equal("gmm-init-weights", g.weights, np.bincount(lab, minlength=K) / N)
+    return o
+
+
+def job_big(P):
+    from symexec import loader
+
+    sizes = sorted({n for c in loader.int_constants(min_value=64) for n in (c - 1, c + 1, 2 * c + 1) if 64 <= n <= 40000})
+    P.probe_real("big-batches", sc_big, [dict(K=3, N=n) for n in sizes] + [dict(K=300, N=900), dict(K=70000 // 256, N=1000)], tries=1)
+
+
 def job_offsets(P):
     """witness search outside the real-arithmetic claim: large common offsets on the real code
     (float cancellation), NumPy and Dask input"""
@@ -139,7 +171,7 @@ def job_gmm(P, K, D, N, chunks, floor):
 
 
 def jobs(tier):
-    out = [("offsets", "job_offsets", {})]
+    out = [("offsets", "job_offsets", {}), ("big", "job_big", {})]
     for (K, D, N) in SIZES[tier]:
         out.append(("assign@K%dD%dN%d" % (K, D, N), "job_assign", dict(K=K, D=D, N=N)))
         out.append(("varw@K%dD%dN%d" % (K, D, N), "job_varw", dict(K=K, D=D, N=N, chunks=None)))
